@@ -181,7 +181,8 @@ def _kind_map():
 
 
 def _grammar_key(G) -> str:
-    return hashlib.sha256(repr(sorted((k, repr(v)) for k, v in G.items())).encode()
+    import json
+    return hashlib.sha256(json.dumps(G, sort_keys=True, default=list).encode()
                           + open(lalr.__file__, 'rb').read()).hexdigest()[:20]
 
 
